@@ -4,12 +4,29 @@ from rules import streams, fields
 
 def check(ctx):
     rep = ctx.rep
+    from rules import tz as _tzz
+    nz = _tzz.check_zone_names(ctx, rep)
+    rep.floor("zone-name table obligations (T-ZONES)", nz, 2)
+    from rules import tz as _tzs
+    nsf = _tzs.check_strftime(ctx, rep)
+    rep.floor("time-of-day text writers", nsf, 3)
+    from rules import hayson as _hc
+    ncc = _hc.check_casts(ctx, rep)
+    rep.floor("float casts / serialize_f64 sites in the Hayson writer", ncc, 2)
+    from rules import tz as _tzr
+    nr = _tzr.check_component_rebuild(ctx, rep)
+    rep.floor("timestamps rebuilt from components", nr, 1)
+    nu = _tzr.check_utc_shortcut(ctx, rep)
+    rep.floor("lookup-free UTC results in the Zinc reader", nu, 1)
     n1 = streams.check_reader_calls(ctx, rep)
     rep.floor("calls on the input reader under zinc::decode / filter", n1, 2)
     n2 = streams.check_iterator_is_eager(ctx, rep)
     rep.floor("eager-vs-lazy structure obligations", n2, 3)
     from rules import escapes
     escapes.check_cell_presence_only(ctx, rep)
+    escapes.check_element_encoding(ctx, rep)
+    nn = escapes.check_nesting_flag(ctx, rep)
+    rep.floor("zinc_encode call sites (nesting flag)", nn, 5)
     n3 = fields.check(ctx, rep, set(fields.ENC_TRAITS))
     rep.floor("encoder impls checked for field coverage", n3, 25)
     rep.assume("std::io::Read::read_exact retries ErrorKind::Interrupted and loops over short reads (documented contract)")
